@@ -50,6 +50,7 @@ from ..ast.fpyast import (
     FuncDef,
     IfExpr,
     ListComp,
+    NamedId,
     Or,
     Stmt,
     StmtBlock,
@@ -78,11 +79,16 @@ class _ReduceFusionInstance(DefaultTransformVisitor):
     :meth:`ReduceFusion.apply` call."""
 
     func: FuncDef
+    def_use: DefineUseAnalysis
     gensym: Gensym
+    rename: dict[NamedId, NamedId]
+    """fresh names of the targets of the comprehension being fused"""
 
     def __init__(self, func: FuncDef, def_use: DefineUseAnalysis):
         self.func = func
+        self.def_use = def_use
         self.gensym = Gensym(reserved=def_use.names())
+        self.rename = {}
 
     def apply(self) -> FuncDef:
         return self._visit_function(self.func, None)
@@ -121,8 +127,17 @@ class _ReduceFusionInstance(DefaultTransformVisitor):
         # and a fusable reduction inside it hoists to this block too.  The
         # element sees the loop target, so it gets no statement slot.
         iterable = self._visit_expr(comp.iterables[0], ctx)
+        # A comprehension target is local to the comprehension, a `for` target
+        # is not: one that is also bound elsewhere gets a fresh name, or the
+        # loop would rebind that variable for the rest of the function.
+        self.rename = {
+            name: self.gensym.refresh(name)
+            for name in comp.targets[0].names()
+            if len(self.def_use.name_to_defs[name]) > 1
+        }
         target = self._visit_binding(comp.targets[0], ctx)
         elt_expr = self._visit_expr(comp.elt, None)
+        self.rename = {}
 
         op = Or if is_any else And
         combine = op([Var(acc, e.loc), Var(elt, e.loc)], e.loc)
@@ -136,6 +151,14 @@ class _ReduceFusionInstance(DefaultTransformVisitor):
         ctx.stmts.append(Assign(acc, None, BoolVal(not is_any, e.loc), e.loc))
         ctx.stmts.append(ForStmt(target, iterable, body, e.loc))
         return Var(acc, e.loc)
+
+    def _visit_var(self, e: Var, ctx: Any) -> Var:
+        return Var(self.rename.get(e.name, e.name), e.loc)
+
+    def _visit_binding(self, binding: Any, ctx: Any):
+        if isinstance(binding, NamedId):
+            return self.rename.get(binding, binding)
+        return super()._visit_binding(binding, ctx)
 
     # ------------------------------------------------------------------
     # Positions with no statement-level slot: suppress fusion.
